@@ -371,6 +371,11 @@ func (tt *TermTable) BVBin(op string, a, b *Term) *Term {
 			return tt.BV(v, w)
 		}
 	}
+	if op == "bvadd" && (a.Op == "bvadd" || b.Op == "bvadd") {
+		if r := tt.addNormal(a, b); r != nil {
+			return r
+		}
+	}
 	switch op {
 	case "bvadd", "bvor", "bvxor":
 		if a.IsConst() && a.V == 0 {
@@ -685,6 +690,9 @@ func (tt *TermTable) FPCmp(op string, a, b *Term) *Term {
 			return tt.Bool(x == y)
 		}
 	}
+	if r := tt.fpIntCmp(op, a, b); r != nil {
+		return r
+	}
 	return tt.mk(op, sortBool, 0, 0, 0, "", a, b)
 }
 
@@ -954,3 +962,98 @@ func (t *Term) Eval(env map[string]uint64, memo map[*Term]uint64) (uint64, bool)
 }
 
 var _ = bits.Len
+
+// addNormal puts a sum into a canonical form (operands flattened, sorted by
+// term id, constants folded, rebuilt left-associated) so that sums that are
+// equal up to associativity and commutativity become the same term.
+func (tt *TermTable) addNormal(a, b *Term) *Term {
+	var leaves []*Term
+	var flat func(t *Term) bool
+	flat = func(t *Term) bool {
+		if t.Op == "bvadd" {
+			return flat(t.Args[0]) && flat(t.Args[1])
+		}
+		leaves = append(leaves, t)
+		return len(leaves) <= 32
+	}
+	if !flat(a) || !flat(b) {
+		return nil
+	}
+	w := a.S.W
+	var c uint64
+	var vars []*Term
+	for _, l := range leaves {
+		if l.IsConst() {
+			c += l.V
+		} else {
+			vars = append(vars, l)
+		}
+	}
+	// insertion sort by id
+	for i := 1; i < len(vars); i++ {
+		for j := i; j > 0 && vars[j-1].id > vars[j].id; j-- {
+			vars[j-1], vars[j] = vars[j], vars[j-1]
+		}
+	}
+	var res *Term
+	for _, v := range vars {
+		if res == nil {
+			res = v
+		} else {
+			res = tt.mk("bvadd", v.S, 0, 0, 0, "", res, v)
+		}
+	}
+	c &= mask(w)
+	if res == nil {
+		return tt.BV(c, w)
+	}
+	if c != 0 {
+		res = tt.mk("bvadd", res.S, 0, 0, 0, "", res, tt.BV(c, w))
+	}
+	return res
+}
+
+// fpIntCmp rewrites a comparison between float64(x) for a signed integer x and
+// a finite constant c with |c| <= 2^52 into an integer comparison. Sound
+// because int->float conversion (RNE) is monotone and every integer of
+// magnitude <= 2^53 is represented exactly:
+//   float(x) <  c  <=>  x <  ceil(c)      float(x) <= c  <=>  x <= floor(c)
+//   c <  float(x)  <=>  x >  floor(c)     c <= float(x)  <=>  x >= ceil(c)
+//   float(x) == c  <=>  c integral and x == c
+func (tt *TermTable) fpIntCmp(op string, a, b *Term) *Term {
+	var x *Term
+	var c float64
+	left := false // true: the conversion is the left operand
+	switch {
+	case a.Op == "to_fp_s" && b.IsConst() && a.S.W == 64:
+		x, c, left = a.Args[0], fpVal(b), true
+	case b.Op == "to_fp_s" && a.IsConst() && b.S.W == 64:
+		x, c = b.Args[0], fpVal(a)
+	default:
+		return nil
+	}
+	if math.IsNaN(c) || math.Abs(c) > (1<<52) || x.S.W < 54 {
+		return nil
+	}
+	w := x.S.W
+	fl, ce := math.Floor(c), math.Ceil(c)
+	k := func(f float64) *Term { return tt.BV(uint64(int64(f)), w) }
+	switch op {
+	case "fp.lt":
+		if left {
+			return tt.BVCmp("bvslt", x, k(ce))
+		}
+		return tt.BVCmp("bvslt", k(fl), x)
+	case "fp.leq":
+		if left {
+			return tt.BVCmp("bvsle", x, k(fl))
+		}
+		return tt.BVCmp("bvsle", k(ce), x)
+	case "fp.eq":
+		if fl != c {
+			return tt.Bool(false)
+		}
+		return tt.Eq(x, k(c))
+	}
+	return nil
+}
